@@ -231,6 +231,7 @@ structure Cfg where
 /-- result classes of the validators (which `return` statement was taken) -/
 inductive Res
   | ok | empty | split | portnum | portrange | host | format | domain | regex | nsname | resname
+  | bracket | unix
   deriving DecidableEq, Repr
 
 def Res.isOk : Res → Bool | .ok => true | _ => false
@@ -261,7 +262,25 @@ def tolerated (k : SHPErr) (value : Str) : Bool :=
   k == .missingPort || k == .tooManyColons ||
     hasSub "missing port".toList value || hasSub "too many colons".toList value
 
+/-- `validateEndpointOptionalPort` as it is now (after 746dbb2): when SplitHostPort succeeds the port must be
+non-empty and unsigned, brackets are only allowed around a host containing ':', and the host `unix` is refused. -/
 def validateEndpointOptionalPort (cfg : Cfg) (s : Str) : Res :=
+  if s.isEmpty then .empty
+  else
+    match splitHostPort s with
+    | .error k => if tolerated k s then (if hostOK s then .ok else .host) else .split
+    | .ok (h, p) =>
+      if p.isEmpty || p.head? == some '+' || p.head? == some '-' then .portnum
+      else if s.head? == some '[' && !h.contains ':' then .bracket
+      else if h == "unix".toList then .unix
+      else
+        match portCheck cfg.optBits cfg.optLo cfg.optHi p with
+        | .ok => if hostOK (if h.isEmpty then s else h) then .ok else .host
+        | r => r
+
+/-- PRE-FIX variant (before 746dbb2), kept as a documented regression detector: the port test was skipped
+for an empty port, a sign was left to `ParseInt`, brackets and the host `unix` were not looked at. -/
+def validateEndpointOptionalPortPreFix (cfg : Cfg) (s : Str) : Res :=
   if s.isEmpty then .empty
   else
     let r := splitHostPort s
@@ -407,10 +426,16 @@ def runStatic (cfg : Cfg) (tEndpoint tInsecure : Str) (args : List (Flag × Str)
 
 /-- `mgmtConfigTemplateText` executed with Endpoint = ep, Resolver = res, no CA / client certificate,
 SkipVerify = false -/
-def renderMgmt (ep res : Str) : Str :=
+def renderMgmtRaw (ep res : Str) : Str :=
   "\nmgmt {".toList ++
   (if ep.isEmpty then [] else "\n\tusage_report endpoint=".toList ++ ep ++ ";".toList) ++
   (if res.isEmpty then [] else "\n\tresolver ".toList ++ res ++ ";".toList) ++
   "\n\tlicense_token /etc/nginx/secrets/license.jwt;\n\tdeployment_context /etc/nginx/main-includes/deployment_ctx.json;\n}\n".toList
+
+/-- `nginxAddr` of main_config.go (since 15df172): a bare IPv6 address gets brackets -/
+def nginxAddr (v : Str) : Str := if v.contains ':' && parseIP v then '[' :: (v ++ [']']) else v
+
+/-- `generateMgmtFiles`: the flag values pass through `nginxAddr` into the template -/
+def renderMgmt (ep res : Str) : Str := renderMgmtRaw (nginxAddr ep) (nginxAddr res)
 
 end NGF.Cli
